@@ -14,6 +14,10 @@ class Let(Expression):
         self.expr = expr
         self.body = body
 
+        # Does this expression bind a name that is already bound where it is
+        # used? (See _update_local_references.)
+        self.shadows_outer_binding = False
+
     def __str__(self):
         return f'let {self.name} = {self.expr} in\n{self.body}'
 
@@ -26,5 +30,13 @@ class Let(Expression):
 
     def _compile(self, out, flags):
         with utils.if_succeeds(out, flags, self.expr):
+            if self.shadows_outer_binding:
+                # The outer binding comes back when this expression is done,
+                # whether its body matched or not.
+                saved = out.var('shadowed', Code(self.name))
+
             out += Code(self.name) << RESULT
             self.body.compile(out, flags)
+
+            if self.shadows_outer_binding:
+                out += Code(self.name) << saved
